@@ -2,6 +2,7 @@ package volsim
 
 import (
 	"fmt"
+	"github.com/chrislusf/seaweedfs/weed/verif"
 	"os"
 	"path/filepath"
 	"strings"
@@ -111,6 +112,7 @@ type sess struct {
 	unchangedRewrite   map[uint64]bool // keys whose last upload was answered "unchanged"
 	lastStep           bool
 	rewrittenUnchanged map[uint64]bool // C09: keys whose last upload was an identical rewrite answered "unchanged"
+	clockJump          time.Duration   // sum of the clock jumps injected so far (verif.StepClock)
 	orderHazard        bool            // at the last algorithm-1 compaction the largest live key was not the last appended record
 	appendOrd          map[uint64]int
 	ordCounter         int
@@ -268,6 +270,16 @@ func (s *sess) step(st *simkit.Step) bool {
 		r.Log("adv %ds", st.Int("sec"))
 		r.Abs("adv")
 		r.NonTrivial()
+	case "jump":
+		// clock jump: the wall clock the SUT reads steps forward at once (no timer fires in between); blobs age by it
+		d := time.Duration(st.Int("sec")) * time.Second
+		verif.StepClock(d)
+		s.clockJump += d
+		s.advs++
+		r.Log("clock jumps forward by %v", d)
+		r.Abs("jump")
+		r.Fault("clock-jump-forward")
+		r.NonTrivial()
 	case "fault":
 		s.wrapFaults(s.A)
 		if s.A.ff != nil {
@@ -333,7 +345,7 @@ func (s *sess) step(st *simkit.Step) bool {
 	return !r.Violated() && r.Res.HarnessError == ""
 }
 
-func (s *sess) now() time.Time { return time.Now() }
+func (s *sess) now() time.Time { return time.Now().Add(s.clockJump) }
 
 func (s *sess) doWrite(st *simkit.Step) {
 	r := s.r
